@@ -202,18 +202,27 @@ def compressionName (n : Int) : Option String :=
   else if n == 4 then some "zstd" else if n == 5 then some "deflate" else if n == 6 then some "snappy"
   else none
 
+/-- the three headers that can announce the request compression -/
+inductive EncHeader | grpc | connectStream | connectUnary
+  deriving DecidableEq, Repr
+
+def EncHeader.name : EncHeader → String
+  | .grpc => "Grpc-Encoding"
+  | .connectStream => "Connect-Content-Encoding"
+  | .connectUnary => "Content-Encoding"
+
 /-- which header announces the compression for a content type (`none`: unknown content type) -/
-def encodingHeaderFor (ct : String) : Option String :=
+def encodingHeaderFor (ct : String) : Option EncHeader :=
   if ct == "application/grpc" || ct == "application/grpc-web" ||
-      hasPrefix ct "application/grpc+" || hasPrefix ct "application/grpc-web+" then some "Grpc-Encoding"
-  else if hasPrefix ct "application/connect+" then some "Connect-Content-Encoding"
-  else if hasPrefix ct "application/" then some "Content-Encoding"
+      hasPrefix ct "application/grpc+" || hasPrefix ct "application/grpc-web+" then some .grpc
+  else if hasPrefix ct "application/connect+" then some .connectStream
+  else if hasPrefix ct "application/" then some .connectUnary
   else none
 
-/-- `compVals`: for GET the `compression` query values, otherwise the values of the header
-`encodingHeaderFor` names. -/
-def compressionCore (expVals ctVals : List String) (method : String)
-    (queryVals : List String) (hdrVals : String → List String) : List Fb :=
+/-- `checkCompression`; `kind` = `encodingHeaderFor` of the content type, `queryVals` the
+`compression` query values (GET), `hdrVals` the values of each candidate header. -/
+def compressionCore (expVals : List String) (kind : Option EncHeader) (method : String)
+    (queryVals : List String) (hdrVals : EncHeader → List String) : List Fb :=
   let (fb, ev) := enumValue "X-Expect-Compression" expVals (inRange 6)
   match ev with
   | none => fb
@@ -225,9 +234,9 @@ def compressionCore (expVals ctVals : List String) (method : String)
         let actual := if vals.length > 0 then first vals else "identity"
         if expect != actual then [.compression] else []
       if method == "GET" then fb ++ dupQFb "compression" queryVals ++ cmp queryVals
-      else match encodingHeaderFor (first ctVals) with
+      else match kind with
         | none => fb
-        | some h => fb ++ dupFb h (hdrVals h) ++ cmp (hdrVals h)
+        | some h => fb ++ dupFb h.name (hdrVals h) ++ cmp (hdrVals h)
 
 /-- `strconv.ParseBool` -/
 def parseBool (s : String) : Option Bool :=
@@ -270,9 +279,15 @@ def fbCodec (r : Req) : List Fb :=
   codecCore (values r.headers "X-Expect-Codec") (values r.headers "Content-Type") r.method r.bodyEmpty
     (values r.query "encoding")
 
+def encVals (r : Req) : EncHeader → List String
+  | .grpc => values r.headers "Grpc-Encoding"
+  | .connectStream => values r.headers "Connect-Content-Encoding"
+  | .connectUnary => values r.headers "Content-Encoding"
+
 def fbCompression (r : Req) : List Fb :=
-  compressionCore (values r.headers "X-Expect-Compression") (values r.headers "Content-Type") r.method
-    (values r.query "compression") (values r.headers)
+  compressionCore (values r.headers "X-Expect-Compression")
+    (encodingHeaderFor (first (values r.headers "Content-Type"))) r.method
+    (values r.query "compression") (encVals r)
 
 def fbTLS (r : Req) : List Fb :=
   tlsCore (values r.headers "X-Expect-Tls") (values r.headers "X-Expect-Client-Cert") r.tls
@@ -372,46 +387,56 @@ def expectHeaders (e : Aspects) (name : String) : Hdrs :=
 def Aspects.realisable (a : Aspects) : Bool :=
   (a.method == .post || a.protocol == .connect) && (!a.cert || a.tls)
 
-def contentType (a : Aspects) (v : Variant) : Hdrs :=
-  match a.method with
+def contentTypeF (m : Method) (p : Protocol) (c : Codec) (stream bare : Bool) : Hdrs :=
+  match m with
   | .get => []
   | .post =>
-    match a.protocol with
+    match p with
     | .connect =>
-      [("Content-Type", (if v.stream then "application/connect+" else "application/") ++ a.codec.str)]
+      [("Content-Type", (if stream then "application/connect+" else "application/") ++ c.str)]
     | .grpc =>
-      [("Content-Type", if v.bareGrpc && a.codec == .proto then "application/grpc"
-        else "application/grpc+" ++ a.codec.str)]
+      [("Content-Type", if bare && c == .proto then "application/grpc" else "application/grpc+" ++ c.str)]
     | .grpcWeb =>
-      [("Content-Type", if v.bareGrpc && a.codec == .proto then "application/grpc-web"
-        else "application/grpc-web+" ++ a.codec.str)]
+      [("Content-Type", if bare && c == .proto then "application/grpc-web"
+        else "application/grpc-web+" ++ c.str)]
 
-def announced (a : Aspects) (v : Variant) : Bool := a.compression != .identity || v.explicitIdentity
+def contentType (a : Aspects) (v : Variant) : Hdrs :=
+  contentTypeF a.method a.protocol a.codec v.stream v.bareGrpc
+
+def announcedF (z : Compression) (explicit : Bool) : Bool := z != .identity || explicit
+
+def encodingHeaderF (m : Method) (p : Protocol) (z : Compression) (stream explicit : Bool) : Hdrs :=
+  match m with
+  | .get => []
+  | .post =>
+    if !announcedF z explicit then [] else
+    match p with
+    | .connect => [(if stream then "Connect-Content-Encoding" else "Content-Encoding", z.str)]
+    | .grpc | .grpcWeb => [("Grpc-Encoding", z.str)]
 
 def encodingHeader (a : Aspects) (v : Variant) : Hdrs :=
-  match a.method with
-  | .get => []
-  | .post =>
-    if !announced a v then [] else
-    match a.protocol with
-    | .connect =>
-      [(if v.stream then "Connect-Content-Encoding" else "Content-Encoding", a.compression.str)]
-    | .grpc | .grpcWeb => [("Grpc-Encoding", a.compression.str)]
+  encodingHeaderF a.method a.protocol a.compression v.stream v.explicitIdentity
 
-def teHeader (a : Aspects) : Hdrs :=
-  match a.method, a.protocol with
+def teHeaderF (m : Method) (p : Protocol) : Hdrs :=
+  match m, p with
   | .post, .grpc => [("Te", "trailers")]
   | _, _ => []
 
-def queryOf (a : Aspects) (v : Variant) : Hdrs :=
-  match a.method with
+def teHeader (a : Aspects) : Hdrs := teHeaderF a.method a.protocol
+
+def queryF (m : Method) (c : Codec) (z : Compression) (explicit : Bool) : Hdrs :=
+  match m with
   | .post => []
   | .get =>
-    [("connect", "v1"), ("encoding", a.codec.str), ("message", "")]
-    ++ (if announced a v then [("compression", a.compression.str)] else [])
+    [("connect", "v1"), ("encoding", c.str), ("message", "")]
+    ++ (if announcedF z explicit then [("compression", z.str)] else [])
 
-def tlsOf (a : Aspects) : Option (Option String) :=
-  if a.tls then some (if a.cert then some clientCertName else none) else none
+def queryOf (a : Aspects) (v : Variant) : Hdrs := queryF a.method a.codec a.compression v.explicitIdentity
+
+def tlsF (tls cert : Bool) : Option (Option String) :=
+  if tls then some (if cert then some clientCertName else none) else none
+
+def tlsOf (a : Aspects) : Option (Option String) := tlsF a.tls a.cert
 
 /-- the request a conformant client sends for test `name` when the runner expects `e` and the
 client actually uses `a` (presentation choices `v`) -/
